@@ -71,6 +71,32 @@ def rule_table(ctx):
     b = ctx.body('engine::PubPoint::check_collected_is_newer')
     paths = enumerate_paths(b, ctx.facts)
     ctx.floor('K4', 'acyclic paths of check_collected_is_newer', len(paths), 6)
+    # closures that compute "the decoded stored manifest agrees with the cached number and thisUpdate"
+    cons_rx = re.compile(r'^call:(Result::unwrap_or\(call:Result::map\(call:Manifest::decode\(.*\),.*\{closure#\d+\}.*\),const\((0|false)\)\)|'
+                         r'Result::is_ok_and\(call:Manifest::decode\(.*\),.*\{closure#\d+\}.*\))$')
+    cons_closures = set()
+    for c in ctx.closures(b):
+        rows_c = []
+        for cp in enumerate_paths(c, ctx.facts):
+            roles = {}
+            for v, labs in cp.cond_map().items():
+                vv = re.sub(r'(upvar:\w+|_1\.\d+)(?=\.(manifest_number|this_update))', 'call:StoredPoint::manifest(x)@Some.0',
+                            re.sub(r'\bmft\b', 'call:Manifest::decode(x)@Ok.0', v))
+                r_, mir_ = role_of(vv)
+                if r_ in ('CN', 'CT'):
+                    roles[r_] = set(labs)
+            rows_c.append((roles, cp.outcome or ''))
+        if not rows_c:
+            continue
+        txt = ' '.join(o for _r, o in rows_c) + ' ' + ' '.join(v for cp in enumerate_paths(c, ctx.facts) for v in cp.cond_map())
+        both = 'manifest_number' in txt and 'this_update' in txt
+        # false whenever a tested equality fails; true / the last equality only when the tested ones hold
+        sound = all((o == 'const(0)') if any('Equal' not in l for l in roles.values()) else
+                    (o == 'const(1)' or re.search(r'(^|[(:])(Eq|eq)\(', o) is not None or 'PartialEq' in o) for roles, o in rows_c)
+        if both and sound:
+            m_ = re.search(r'\{closure#(\d+)\}$', c.nid)
+            if m_:
+                cons_closures.add(m_.group(1))
     keyed = []
     for p in paths:
         if p.kind != 'return':
@@ -79,6 +105,10 @@ def rule_table(ctx):
         cm = {}
         for v, labs in p.cond_map().items():
             r, mir = role_of(v)
+            if r is None and cons_rx.match(v) and any(('{closure#%s}' % k) in v for k in cons_closures):
+                # `decode(stored).map(|mft| number == cached && time == cached).unwrap_or(false)`: one bool for
+                # "decodes and both cached values agree"
+                r, mir = 'CONS', False
             if r is None:
                 ctx.bad('K4', 'check_collected_is_newer:unrecognised-condition',
                         'check_collected_is_newer branches on `%s`, which is not part of the stated acceptance condition' % v)
@@ -91,7 +121,7 @@ def rule_table(ctx):
     for S, N, T, D, CN, CT, R in itertools.product(['Some', 'None'], ['Less', 'Equal', 'Greater'], ['Less', 'Equal', 'Greater'],
                                                     ['Ok', 'Err'], ['Equal', 'Less'], ['Equal', 'Greater'], ['pass', 'fail']):
         rows += 1
-        asg = dict(S=S, N=N, T=T, D=D, CN=CN, CT=CT, R=R)
+        asg = dict(S=S, N=N, T=T, D=D, CN=CN, CT=CT, R=R, CONS='true' if (D == 'Ok' and CN == 'Equal' and CT == 'Equal') else 'false')
         sel = [p for cm, p in keyed if all(asg[r] in labs for r, labs in cm.items())]
         got = sorted(set((p.outcome, bool(p.called('store::StoredPoint::reject'))) for p in sel))
         if S == 'None' or (N == 'Greater' and T == 'Greater'):
